@@ -34,7 +34,7 @@ def position_coded(r, n):
 
 
 def segment_bytes(body, is_eflr, lr_type, first, last, encrypted=False, checksum=False, trailing=False,
-                  extra_pad=0):
+                  extra_pad=0, enc_pad_flag=False):
     """One logical record segment: header(4) body [pad] [checksum] [trailing length].
     Pads to even length and to the 16 byte minimum (2.2.2.1); extra_pad adds further (even) pad bytes.
     Returns (bytes, pad_count)."""
@@ -64,7 +64,8 @@ def segment_bytes(body, is_eflr, lr_type, first, last, encrypted=False, checksum
         attr |= 0x04
     if trailing:
         attr |= 0x02
-    if pad:
+    if pad or (encrypted and enc_pad_flag):
+        # an encrypted segment may carry the padding bit: its pad bytes are part of the cipher text and stay in the body (2.2.2.1)
         attr |= 0x01
     by = struct.pack('>HBB', length, attr, lr_type) + body
     if pad:
@@ -128,7 +129,8 @@ def build_file(records, sul=None):
             o = opts[s] if s < len(opts) else {}
             seg, _pad = segment_bytes(body, rec['eflr'], rec['type'], s == 0, s == nseg - 1,
                                       encrypted=rec.get('encrypted', False), checksum=o.get('checksum', False),
-                                      trailing=o.get('trailing', False), extra_pad=o.get('extra_pad', 0))
+                                      trailing=o.get('trailing', False), extra_pad=o.get('extra_pad', 0),
+                                      enc_pad_flag=rec.get('enc_pad_flag', False))
             if cur is None or newvr[s] or 4 + len(cur[1]) + len(seg) > 16384:
                 close()
                 cur = [len(out), bytearray()]
